@@ -56,7 +56,30 @@ Spellings == <<
   <<110, 117, 108, 108>>, <<78, 117, 108, 108>>, <<78, 85, 76, 76>>, <<126>>, <<>>,
   <<48, 120, 49, 70>>, <<48, 111, 49, 55>>, <<49, 95, 48, 48, 48>>, <<48, 98, 49, 48>>,
   <<97, 98, 99>>, <<97, 32, 98>>, <<50, 48, 48, 49, 45, 49, 50, 45, 49, 52>>, <<49, 58, 51, 48>>,
-  <<233>>, <<26085, 26412>>
+  <<233>>, <<26085, 26412>>,
+  \* spellings longer than 20 characters (no integer, boolean or null spelling is that long - a float can be)
+  <<49, 46, 50, 51, 52, 53, 54, 55, 56, 57, 48, 49, 50, 51, 52, 53, 54, 55, 101, 45, 48, 53>>,
+  <<48, 46, 49, 50, 51, 52, 53, 54, 55, 56, 57, 48, 49, 50, 51, 52, 53, 54, 55, 56, 57, 48, 49>>,
+  <<97, 98, 99, 100, 101, 102, 103, 104, 105, 106, 107, 108, 109, 110, 111, 112, 113, 114, 115, 116, 117, 118, 119, 120, 121, 122>>
+>>
+\* string literals of a JSON document, as written between the quotes
+Escapes == <<
+  <<97, 92, 110, 98>>,
+  <<116, 97, 98, 92, 116, 104, 101, 114, 101>>,
+  <<113, 92, 34, 113>>,
+  <<98, 97, 99, 107, 92, 92, 115, 108, 97, 115, 104>>,
+  <<115, 108, 92, 47, 97, 115, 104>>,
+  <<92, 117, 48, 48, 101, 57>>,
+  <<92, 117, 48, 48, 52, 49, 66, 67>>,
+  <<92, 117, 54, 53, 101, 53, 92, 117, 54, 55, 50, 99>>,
+  <<92, 117, 100, 56, 51, 100, 92, 117, 100, 101, 48, 48>>,
+  <<120, 92, 117, 48, 48, 48, 97, 121>>,
+  <<99, 114, 92, 114, 108, 102>>,
+  <<92, 98, 92, 102>>,
+  <<92, 117, 48, 48, 69, 57, 116, 92, 117, 48, 48, 99, 57>>,
+  <<92, 117, 68, 56, 51, 68, 92, 117, 68, 69, 48, 48, 33>>,
+  <<112, 108, 97, 105, 110>>,
+  <<233, 32, 114, 97, 119>>
 >>
 Styles == {"plain", "single", "double", "literal", "folded", "tag-str", "tag-int", "tag-float"}
 
@@ -77,6 +100,7 @@ Init ==
   \/ mode = "scalar" /\ a \in 1 .. Len(Spellings) /\ b \in Styles /\ c = 0
   \/ mode = "tag" /\ a \in 1 .. Len(SingleTags) /\ b = "single" /\ c = 0
   \/ mode = "tag" /\ a \in 1 .. Len(SeqTags) /\ b = "seq" /\ c = 0
+  \/ mode = "escape" /\ a \in 1 .. Len(Escapes) /\ b = "json" /\ c = 0
 Next == UNCHANGED vars
 Spec == Init /\ [][Next]_vars
 
@@ -107,6 +131,15 @@ ScalarOK ==
   mode = "scalar" =>
   PrintT(<<"REPLAY", ToJson([kind |-> "scalar", cp |-> Spellings[a], style |-> b,
                              expect |-> ExpectedType(Spellings[a], b)])>>)
+
+\* an escaped spelling stands for a string without a backslash left over from an escape pair, and
+\* a spelling without backslashes stands for itself
+EscapeOK ==
+  mode = "escape" =>
+  LET u == Unescape(Escapes[a], 1) IN
+  /\ Len(u) <= Len(Escapes[a])
+  /\ (\A i \in 1 .. Len(Escapes[a]) : Escapes[a][i] # 92) => u = Escapes[a]
+  /\ PrintT(<<"REPLAY", ToJson([kind |-> "escape", cp |-> Escapes[a], want |-> u])>>)
 
 TagOK ==
   mode = "tag" =>
